@@ -30,6 +30,8 @@ func init() {
 			{"ledger/common", "AddressTypeNoneScript", "typeNoneScript"},
 		})
 		g9Trailers()
+		g9AddrSwitches()
+		g9NativeScriptIds()
 	})
 }
 
@@ -72,4 +74,131 @@ func g9Trailers() {
 	}
 	l.pf("]\n")
 	l.pf("end GV.Gen.AddrTrailers\n")
+}
+
+// g9AddrSwitches: the three `switch a.addressType` statements of populateFromBytes
+// (known types; payment payload kind; staking payload kind) as Lean lists of type numbers,
+// so that adding/removing/moving one constant in a case list changes a generated table.
+func g9AddrSwitches() {
+	p := loadPkg("ledger/common")
+	fd := findFunc(p, "Address", "populateFromBytes")
+	if fd == nil {
+		fatal("Address.populateFromBytes not found")
+	}
+	var sws []*ast.SwitchStmt
+	ast.Inspect(fd.Body, func(n ast.Node) bool {
+		if sw, ok := n.(*ast.SwitchStmt); ok {
+			if sel, ok := sw.Tag.(*ast.SelectorExpr); ok && sel.Sel.Name == "addressType" {
+				sws = append(sws, sw)
+			}
+		}
+		return true
+	})
+	if len(sws) != 3 {
+		fatal("populateFromBytes: expected 3 switches on addressType, found %d", len(sws))
+	}
+	cases := func(sw *ast.SwitchStmt) [][]string {
+		out := [][]string{}
+		for _, st := range sw.Body.List {
+			cc := st.(*ast.CaseClause)
+			if cc.List == nil {
+				continue // default
+			}
+			vals := []string{}
+			for _, e := range cc.List {
+				id, ok := e.(*ast.Ident)
+				if !ok {
+					fatal("populateFromBytes: case expression is not a constant name")
+				}
+				vals = append(vals, constOf("ledger/common", id.Name))
+			}
+			out = append(out, vals)
+		}
+		return out
+	}
+	known, pay, stake := cases(sws[0]), cases(sws[1]), cases(sws[2])
+	if len(known) != 1 || len(pay) != 2 || len(stake) != 3 {
+		fatal("populateFromBytes: switch shapes changed (%d/%d/%d case clauses)", len(known), len(pay), len(stake))
+	}
+	l := newLean("AddrSwitches")
+	l.pf("namespace GV.Gen.AddrSwitches\n")
+	emit := func(name string, vals []string) {
+		l.pf("def %s : List Nat := [", name)
+		for i, v := range vals {
+			if i > 0 {
+				l.pf(", ")
+			}
+			l.pf("%s", v)
+		}
+		l.pf("]\n")
+	}
+	emit("knownTypes", known[0])
+	emit("payKey", pay[0])
+	emit("payScript", pay[1])
+	emit("stakeKey", stake[0])
+	emit("stakeScript", stake[1])
+	emit("stakePointer", stake[2])
+	l.pf("end GV.Gen.AddrSwitches\n")
+}
+
+// g9NativeScriptIds: the `switch id` of NativeScript.UnmarshalCBOR as (id, Go type name) pairs.
+func g9NativeScriptIds() {
+	p := loadPkg("ledger/common")
+	fd := findFunc(p, "NativeScript", "UnmarshalCBOR")
+	if fd == nil {
+		fatal("NativeScript.UnmarshalCBOR not found")
+	}
+	type pair struct{ id, name string }
+	var pairs []pair
+	ast.Inspect(fd.Body, func(n ast.Node) bool {
+		sw, ok := n.(*ast.SwitchStmt)
+		if !ok {
+			return true
+		}
+		if id, ok := sw.Tag.(*ast.Ident); !ok || id.Name != "id" {
+			return true
+		}
+		for _, st := range sw.Body.List {
+			cc := st.(*ast.CaseClause)
+			if cc.List == nil {
+				continue
+			}
+			if len(cc.List) != 1 || len(cc.Body) != 1 {
+				fatal("NativeScript.UnmarshalCBOR: unexpected case shape")
+			}
+			lit, ok := cc.List[0].(*ast.BasicLit)
+			as, ok2 := cc.Body[0].(*ast.AssignStmt)
+			if !ok || !ok2 || len(as.Rhs) != 1 {
+				fatal("NativeScript.UnmarshalCBOR: unexpected case shape")
+			}
+			un, ok := as.Rhs[0].(*ast.UnaryExpr)
+			if !ok {
+				fatal("NativeScript.UnmarshalCBOR: unexpected case body")
+			}
+			cl, ok := un.X.(*ast.CompositeLit)
+			if !ok {
+				fatal("NativeScript.UnmarshalCBOR: unexpected case body")
+			}
+			tn, ok := cl.Type.(*ast.Ident)
+			if !ok {
+				fatal("NativeScript.UnmarshalCBOR: unexpected case body")
+			}
+			pairs = append(pairs, pair{lit.Value, tn.Name})
+		}
+		return false
+	})
+	if len(pairs) == 0 {
+		fatal("NativeScript.UnmarshalCBOR: switch on id not found")
+	}
+	l := newLean("NativeScriptIds")
+	l.pf("namespace GV.Gen.NativeScriptIds\n")
+	l.pf("def table : List (Nat × String) := [")
+	for i, pr := range pairs {
+		if i > 0 {
+			l.pf(", ")
+		}
+		l.pf("(%s, %s)", pr.id, strconv.Quote(pr.name))
+	}
+	l.pf("]\n")
+	l.pf("end GV.Gen.NativeScriptIds\n")
 }
